@@ -201,7 +201,7 @@ def run(ctx, driver):
     ctx.rule = ("functions of time with known minimal ODE order 1..4 (sums/products of polynomials, exponentials, sines, cosines with symbolic and numeric constants) "
                 "and functions outside the class or above the maximum order (t**4, exp(-t**2), 1/(1+t), tanh, log, 0); (a) from_function's oracle answers recorded and its "
                 "outcome compared with the model; (b) returned dictionary stepped over random step sequences against f and its derivatives at 40 digits; "
-                "distinct = distinct definitions; non-trivial = order >= 2 or a rejection")
+                "distinct = distinct definitions; non-trivial = order >= 2 or a rejection; (c) every function is analysed a second time with the analytic solver disabled and f, f', ... must satisfy the returned ODE")
     fam = [x for x in FAMILY if quick is False or x[2] == "q"]
     cases = [{"f": f, "order": o, "seed": ctx.seed * 1000 + i} for i, (f, o, _) in enumerate(fam)]
     # the same functions written in a renamed time variable (option input_time_symbol)
